@@ -20,7 +20,7 @@ ASSUMPTIONS = [
     'daemons that do not obey the flag are generated with a cancellation_timeout (otherwise they legitimately run forever)',
     'the API-server model and virtual time of kopfsim',
 ]
-BUDGET = {'quick': 120, 'thorough': 3000}
+BUDGET = {'quick': 120, 'thorough': 1500}
 EPS = 1e-6
 FINDING_B = 'C09-B-instances-survive-disappearance-without-deletion-mark'
 FINDING_P = 'C09-P-rematch-during-stopping-freezes-termination'
